@@ -6,12 +6,13 @@ CONSTANTS
   WSizes = {1}
   RBufs = {1, 2}
   MSizes = {0, 3}
-  Kinds = {"bin", "text", "ping"}
+  Kinds = {"bin", "ping"}
   Codes = {1000, 1005, 1001}
   MaxW = 0
   MaxR = 1
   MaxMsg = 2
   PipeWriteLock = TRUE
+  C2ClosesPipe = TRUE
   EnvAtRest = FALSE
   History = TRUE
 SPECIFICATION Spec
